@@ -47,6 +47,16 @@ theorem writeUdata_length (e : Endian) (v size : Nat) (bs : Bytes)
     · rename_i h8; simp only [Out.ok.injEq] at h; rw [← h, h8]; exact toBytes_length e 8 v
     · simp at h
 
+/-- inversion of the `String` arm of `AttributeValue::write` -/
+theorem string_emit_inv (bs : Bytes) (em : Emit)
+    (h : (if bs.contains 0 then .err .wInvalidAttributeValue else .ok (Emit.ofBytes (bs ++ [0])) : Out Emit) = .ok em) :
+    bs.contains 0 = false ∧ em = Emit.ofBytes (bs ++ [0]) := by
+  by_cases hc : bs.contains 0 = true
+  · rw [if_pos hc] at h; cases h
+  · rw [if_neg hc] at h
+    simp only [Out.ok.injEq] at h
+    exact ⟨by simpa using hc, h.symm⟩
+
 /-! ## predicted size = emitted length, kind by kind -/
 
 /-- `b` knows everything `a` knows (same unit, same vector length, every assigned offset kept) -/
@@ -286,7 +296,8 @@ theorem attr_size_eq_emit' (cx : Ctx) (a : Offs) (pos : Nat) (v : AttrVal) (sz :
     | diverge => simp [ht] at he
   | string bs =>
     simp only [attrSize, attrEmit, Out.ok.injEq] at hs he
-    rw [← he, ← hs]; simp [Emit.ofBytes]
+    obtain ⟨_, he⟩ := string_emit_inv bs em he
+    rw [he, ← hs]; simp [Emit.ofBytes]
 
 /-! ## pass 1 against pass 2 -/
 
@@ -309,8 +320,10 @@ theorem attrEmit_starts (cx : Ctx) (pos : Nat) (v : AttrVal) (em : Emit)
   cases v <;> simp only [attrEmit] at h
   case addressSym | debugInfoRefSym => simp at h
   case block | data1 | data2 | data4 | data8 | data16 | sdata | implicitConst | udata | flag
-      | flagPresent | debugTypesRef | string | constClass | fileIndex =>
+      | flagPresent | debugTypesRef | constClass | fileIndex =>
     simp only [Out.ok.injEq] at h; rw [← h]; rfl
+  case string bs =>
+    rw [(string_emit_inv bs em h).2]; rfl
   case lineProgramRef =>
     cases hl : cx.lineProgram with
     | none => simp [hl] at h
@@ -1227,8 +1240,10 @@ theorem attrEmit_placed (cx : Ctx) (pos : Nat) (v : AttrVal) (em : Emit) (h : at
   cases v <;> simp only [attrEmit] at h
   case addressSym | debugInfoRefSym => simp at h
   case block | data1 | data2 | data4 | data8 | data16 | sdata | implicitConst | udata | flag
-      | flagPresent | debugTypesRef | string | constClass | fileIndex =>
+      | flagPresent | debugTypesRef | constClass | fileIndex =>
     simp only [Out.ok.injEq] at h; subst h; simp [holesU, holesI, Placed, Emit.ofBytes]
+  case string bs =>
+    rw [(string_emit_inv bs em h).2]; simp [holesU, holesI, Placed, Emit.ofBytes]
   case lineProgramRef =>
     cases hl : cx.lineProgram with
     | none => simp [hl] at h
@@ -1542,6 +1557,8 @@ theorem writeUnit_inv (e : Endian) (so lso : List Nat) (s s' : Sec) (u : UnitIn)
       s'.abbr = s.abbr ++ abbrevTableWrite p1.abbrevs ∧ s'.ifix = s.ifix ++ em.ifix ∧ o = p1.offs := by
   unfold writeUnit at h
   simp only at h
+  split at h
+  · simp at h
   obtain ⟨hdr, h1, h⟩ := bind_ok_inv h
   obtain ⟨p1, h2, h⟩ := bind_ok_inv h
   obtain ⟨em, h3, h⟩ := bind_ok_inv h
@@ -1697,8 +1714,10 @@ theorem attrEmit_crossDisj (cx : Ctx) (pos : Nat) (v : AttrVal) (em : Emit) (h :
   cases v <;> simp only [attrEmit] at h
   case addressSym | debugInfoRefSym => simp at h
   case block | data1 | data2 | data4 | data8 | data16 | sdata | implicitConst | udata | flag
-      | flagPresent | debugTypesRef | string | constClass | fileIndex =>
+      | flagPresent | debugTypesRef | constClass | fileIndex =>
     simp only [Out.ok.injEq] at h; subst h; left; rfl
+  case string bs =>
+    rw [(string_emit_inv bs em h).2]; left; rfl
   case lineProgramRef =>
     cases hl : cx.lineProgram with
     | none => simp [hl] at h
@@ -1980,7 +1999,8 @@ theorem attr_bytes_decode' (cx : Ctx) (pos : Nat) (v : AttrVal) (em : Emit) (fv 
     simpa [attrForm, Emit.ofBytes, List.append_assoc] using
       block_roundtrip b rest hr DW_FORM_block cx.endian cx.enc (Or.inl rfl)
   case string s0 =>
-    simp only [Out.ok.injEq] at h; subst h hd
+    have h := (string_emit_inv s0 em h).2
+    subst h hd
     have := readCStr_roundtrip s0 rest hr
     simp [readForm, attrForm, DW_FORM_string, DW_FORM_block, DW_FORM_exprloc, DW_FORM_addr, DW_FORM_data1,
       DW_FORM_flag, DW_FORM_data2, DW_FORM_data4, DW_FORM_ref4, DW_FORM_ref_sup4, DW_FORM_data8, DW_FORM_ref8,
